@@ -102,9 +102,35 @@ def leaves(item):
     return [item]
 
 
+_HASHED = {}
+
+
+def _hashed(cls, world):
+    """S10: object hashes stand for memory addresses, which differ from process to process.  When world.hash_order is
+    set, devices are instances of a subclass that only adds __hash__ (ascending or descending per run), so that any
+    dependence of a decision on set / dict-of-objects iteration order becomes visible as a difference between runs."""
+    mode = getattr(world, 'hash_order', None)
+    if mode is None:
+        return cls
+    if cls not in _HASHED:
+        _HASHED[cls] = type(cls.__name__, (cls,), {'__hash__': lambda self: self._verif_hash})
+    base = _HASHED[cls]
+
+    def make(*a, **k):
+        obj = base.__new__(base)
+        world.hash_seq = getattr(world, 'hash_seq', 0) + 1
+        obj._verif_hash = world.hash_seq if mode == 'asc' else 1000 - world.hash_seq
+        obj.__init__(*a, **k)
+        return obj
+    return make
+
+
 def build(world):
     ctx, spec = world.ctx, world.spec
     WProc = globals()['WProc']
+    Source, PartHandler, PartProcessor, Buffer, Sink, DecisionGate, PartBatcher = (
+        _hashed(c, world) for c in (globals()['Source'], globals()['PartHandler'], globals()['PartProcessor'], globals()['Buffer'],
+                                    globals()['Sink'], globals()['DecisionGate'], globals()['PartBatcher']))
     system = System()
     world.system, world.env = system, system.env
     for name, cap in spec.get('pools', {}).items():
@@ -127,10 +153,11 @@ def build(world):
             obj = PartHandler(name, up, world.val(d.get('cycle', 0)))
         elif k == 'proc':
             res = d.get('res')
-            cls = WProc if ('durs' in d or 'needs' in d or 'costs' in d) else PartProcessor
+            wp = ('durs' in d or 'needs' in d or 'costs' in d)
+            cls = _hashed(WProc, world) if wp else PartProcessor
             obj = cls(name, up, world.val(d.get('cycle', 0)),
                       resources_for_processing=None if res is None else {r: world.val(a) for r, a in res.items()})
-            if cls is WProc:
+            if wp:
                 # instance attributes (a class built with type(...) would push the symbolic numbers through a C call,
                 # which makes CrossHair enumerate their values)
                 obj.wo_durs = {t: world.val(v) for t, v in d.get('durs', {}).items()}
